@@ -469,10 +469,14 @@ class Lexer:
             else:
                 pattern.append(self._advance())
 
-        # Read flags
+        # Read flags: every identifier character after the closing / belongs
+        # to the flags, which must be known and distinct (/a/gg, /a/x are errors)
         flags = []
-        while self._current() and self._current() in "gimsuy":
-            flags.append(self._advance())
+        while self._current() and (self._current().isalnum() or self._current() in "_$"):
+            flag = self._advance()
+            if flag not in "gimsuy" or flag in flags:
+                raise JSSyntaxError("Invalid regular expression flags", line, column)
+            flags.append(flag)
 
         return Token(TokenType.REGEX, ("".join(pattern), "".join(flags)), line, column)
 
